@@ -4,7 +4,7 @@ from fractions import Fraction as F
 from hypothesis import strategies as st
 
 from vp import gen, build, ref
-from vp.core import SubCheck
+from vp.core import SubCheck, Skip
 
 RULE = ("Cases: generated curve/surface/volume definitions (BSpline or NURBS, clamped or unclamped, normalised or "
         "affine knot range) with parameter descriptors resolved against the stored knot vector; oracle = exact "
@@ -28,9 +28,13 @@ def _nontrivial(ctx, d, kinds=()):
 @st.composite
 def _single_cases(draw, tier):
     big = tier == "thorough"
+    # the documented ``precision`` keyword (decimal places kept when knot vectors are normalised); default 18
+    precision = draw(st.sampled_from([None, None, None, None, None, 3, 4, 8]))
     d = draw(gen.spline(max_p=7 if big else 4, max_extra=8 if big else 4, dims=None,
                         unclamped="maybe", affine_range="maybe", normalize="maybe",
-                        vol_max_p=3, vol_max_extra=3 if big else 2, micro=True))
+                        vol_max_p=3, vol_max_extra=3 if big else 2, micro=precision is None))
+    if precision is not None:
+        d["precision"] = precision
     if draw(st.integers(0, 9)) == 0 and d["kind"] == "curve":
         # n-D curve (4 coordinates)
         d["P"] = [p + [p[0] * 0.5] * (4 - len(p)) for p in d["P"]]
@@ -43,7 +47,14 @@ def _single_cases(draw, tier):
 
 def check_single(case, ctx):
     d = case["defn"]
-    obj = build.make(d, mode=case["mode"])
+    if d.get("precision") is not None:
+        obj = build.make(d, mode=case["mode"], precision=d["precision"])
+        ctx.label("precision-keyword")
+        for p_, kv_, n_ in zip(d["degree"], build.kvs_of(obj), d["size"]):
+            if any(sum(1 for k in kv_[p_ + 1:n_] if k == x) > p_ for x in set(kv_[p_ + 1:n_])) or not (kv_[p_] < kv_[n_]):
+                raise Skip("rounding the knots to %d decimals merged knots beyond the degree" % d["precision"])
+    else:
+        obj = build.make(d, mode=case["mode"])
     R = build.exact_from(d, obj)
     allkinds = []
     plist = []
@@ -113,7 +124,8 @@ def _grid_cases(draw, tier):
         raw = [draw(st.sampled_from([0.4, 0.08, 2.0 / 9.0, 0.3, 0.15, 0.35, 0.22, 0.6, 2.0 / 7.0, 0.0625, 0.13])) for _ in range(pdim)]
         if d["kind"] == "volume":
             raw = [max(x, 0.2) for x in raw]
-    return {"defn": d, "n": list(ns), "single_delta": use_single_delta, "sub": sub, "via_sample_size": draw(st.booleans()), "raw_delta": raw}
+    return {"defn": d, "n": list(ns), "single_delta": use_single_delta, "sub": sub, "via_sample_size": draw(st.booleans()), "raw_delta": raw,
+            "descending": [draw(st.integers(0, 3)) == 0 for _ in range(pdim)]}
 
 
 def _multiset(pts):
@@ -161,6 +173,11 @@ def check_grid(case, ctx):
         lo = [min(a, b) for a, b in zip(s0, s1)]
         hi = [max(a, b) for a, b in zip(s0, s1)]
         if all(h - l > 1e-6 for l, h in zip(lo, hi)):
+            for k, desc_ in enumerate(case.get("descending", [])):
+                if desc_:
+                    # a range given from its upper to its lower end is sampled in that order
+                    lo[k], hi[k] = hi[k], lo[k]
+                    ctx.label("descending-subrange")
             start, stop = [F(x) for x in lo], [F(x) for x in hi]
             kinds = k0 + k1
             ctx.label("subrange")
@@ -248,6 +265,20 @@ def check_grid_reuse(case, ctx):
         r, scale = R.point(us)
         got = obj.evaluate_single(build.call_param(obj, us))
         ctx.check(ref.vec_close(got, r, scale), "single-after-edit", "evaluate_single after edit = %r, definition %r" % (got, ref.fl(r)))
+    # second stage: only the sampling density changes, the grid follows
+    m = 3 + (ns[0] % 4)
+    if case.get("via_sample_size"):
+        obj.sample_size = m
+    else:
+        obj.delta = 1.0 / m
+    pts = obj.evalpts
+    ctx.check(len(pts) == m ** pdim, "grid-size", "after changing the density to %d samples per direction evalpts has %d points" % (m, len(pts)))
+    grids = [[dom[k][0] + (dom[k][1] - dom[k][0]) * F(i, m - 1) for i in range(m)] for k in range(pdim)]
+    if pdim < 3:
+        for g, idx in zip(pts, itertools.product(*[range(m)] * pdim)):
+            r, scale = R.point([grids[k][idx[k]] for k in range(pdim)])
+            ctx.check(ref.vec_close(g, r, scale, 1e-8), "grid-after-density-change",
+                      "after changing the density, evalpts entry %r = %r, definition gives %r" % (idx, g, ref.fl(r)))
 
 
 SUBCHECKS = [
